@@ -6,7 +6,13 @@ evaluates the row of the generated route table the request was built from, compa
 status class (and login result, listing, actor) with the observed one (`FAIL model`), and evaluates
 the executable forms of the property predicates on the *observed* answer (`FAIL oracle`).
 
-  cfg auth=configfile|admintoken admin=<hex> testbed=0|1 key=<n>
+  cfg auth=configfile|admintoken admin=<hex> testbed=0|1 key=<n> [roles=builtin] [unix=default] [users=none] [load=toml]
+      the configuration FILE (`KM.Http.ConfigFile`): `roles=builtin` = no `[auth_roles]` section (no `role`
+      lines follow), `unix=default` = no `[unix_users]` section (no `unix` lines), `users=none` = no
+      `[auth_users]`; the providers see `ConfigFile.effective`
+  start => start=ok|refused
+      the daemon is started from that configuration; the model's answer is `startOk`; after `refused`
+      nothing follows in the case
   role <name> none=<P,P|-> any=<P,P|-> res=<handle>:<P+P|->;…|-
   user <hexname> role=<name> hpw=<hex> hname=<hex> salt=<n> [hsalt=<n>] [stored=<form>]
       the stored `password_hash` is the hash term (hpw, hname, hsalt or else salt) – or, with `stored=<form>`
@@ -25,6 +31,7 @@ credential: `base` = `adm` (the admin token: the model builds the header text an
 import KrillModel.Http.Serve
 import KrillModel.Http.Spec
 import KrillModel.Http.Bearer
+import KrillModel.Http.ConfigModel
 import KrillModel.Drivers.Util
 namespace KM.Drv.Http
 open KM.Generated KM.Http KM.Drv
@@ -71,11 +78,15 @@ def parseMethod : String → Option Method
   | _ => none
 
 structure St where
-  cfg : Config := ⟨.configFile, "", [], [], [], 0, false⟩
+  /-- the configuration file of the case -/
+  cf : ConfigFile := ⟨.configFile, "", some [], some [], some [], 0, false⟩
   norm : List (String × String) := []
   sess : SessState := {}
   /-- tokens by their trace name (`T1`, `F1`) -/
   tokens : List (String × Wire) := []
+
+/-- What the providers see. -/
+def St.cfg (st : St) : Config := st.cf.effective
 
 def St.normF (st : St) (s : String) : String := (st.norm.lookup s).getD s
 
@@ -265,7 +276,23 @@ def oracle (st : St) (a : AuthRes) (ad : AuthDesc) (rt : Route) (segs : List Str
          allL.all (fun h => !allowed .CaRead (some h) || shown.contains h)
       then [] else ["listing_filtered"]
     | _, _ => []
-  gated ++ publicOnly ++ effect ++ listing
+  -- C20 identity_role_is_configured: a served request that carries a session token (or comes from a
+  -- mapped peer) acted within the permissions of the role the CONFIGURED role map has under the
+  -- session's (the mapping's) role name – judged with the role map of the file, not with `a`
+  let roleName : Option String :=
+    match ad with
+    | .bearer (.sealed _ _ _ (.session _ r)) => some r
+    | _ => Option.none
+  let configured :=
+    if ran && area == .api then
+      match roleName with
+      | some r =>
+        match st.cf.roleMap.lookup r with
+        | some role => if (runGates (.ok "?" role) segs rt.gates).isNone then [] else ["identity_role_is_configured"]
+        | Option.none => ["identity_role_is_configured"]
+      | Option.none => []
+    else []
+  gated ++ publicOnly ++ effect ++ listing ++ configured
 
 /-- The full-strength login predicate on an observed successful login: the identity logged in is a
 configured user whose own stored hash matches the password sent. -/
@@ -279,7 +306,8 @@ def loginOracle (st : St) (pw : String) (status : Nat) (ows : List String) : Lis
       (if kv? ows "role" == some e.role then [] else ["login_role"]) ++
       (match st.cfg.roles.lookup e.role with
        | some r => if r.isAllowed .Login Option.none then [] else ["login_needs_permission"]
-       | Option.none => ["login_role"])
+       -- the role name of the entry is not a role of the configuration
+       | Option.none => ["login_role", "identity_role_is_configured"])
     | Option.none => ["login_identity"]
   | Option.none => ["login_identity"]
 
@@ -362,14 +390,16 @@ def stepReq (st : St) (ws ows : List String) : St × String :=
           | .invalid =>
             if status == 401 then (st1, s!"ok login:invalid/{match basic with
               | Option.none => "no-credentials"
-              | some (n, _) =>
+              | some (n, p) =>
                 match st.cfg.users.lookup (st.normF n) with
                 | Option.none =>
                   (if (st.cfg.users.lookup n).isSome then "unknown-normalised-name" else "unknown-name")
                 | some e =>
                   match e.hash with
                   | .junk _ => "junk-hash"
-                  | .term h => if h.saltName != st.normF n || h.salt != e.salt then "foreign-hash" else "wrong-password"}")
+                  | .term h =>
+                    if h == (⟨st.normF p, st.normF n, e.salt⟩ : HashTerm) then "undefined-role"
+                    else if h.saltName != st.normF n || h.salt != e.salt then "foreign-hash" else "wrong-password"}")
             else if !orc.isEmpty then (unexpectedToken st1 ows, fail "oracle" (" ".intercalate orc))
             else (st1, fail "model" s!"login expected 401 observed status={status}")
           | .denied =>
@@ -427,14 +457,19 @@ def step (st : St) (line : String) : St × String :=
     | some adm =>
       let tb := kv? rest "testbed" == some "1"
       let key := natOr ((kv? rest "key").getD "0") 0
-      ({ st with cfg := { st.cfg with authType := aty, adminToken := adm, testbed := tb, key := key } },
-        "ok cfg:trivial")
+      let cf := { st.cf with authType := aty, adminToken := adm, testbed := tb, key := key }
+      let cf := if kv? rest "roles" == some "builtin" then { cf with authRoles := Option.none } else cf
+      let cf := if kv? rest "unix" == some "default" then { cf with unixUsers := Option.none } else cf
+      let cf := if kv? rest "users" == some "none" then { cf with authUsers := Option.none } else cf
+      ({ st with cf := cf },
+        s!"ok cfg:{if cf.authRoles.isNone then "builtin-roles" else "own-roles"}/{if cf.unixUsers.isNone then "default-unix-users" else "own-unix-users"}")
     | Option.none => (st, "bad-op cfg")
   | "role" :: name :: rest =>
     match parsePerms ((kv? rest "none").getD "-") ",", parsePerms ((kv? rest "any").getD "-") ",",
           parseRes ((kv? rest "res").getD "-") with
     | some n, some a, some r =>
-      ({ st with cfg := { st.cfg with roles := st.cfg.roles ++ [(name, ⟨n, a, r⟩)] } }, "ok role:trivial")
+      ({ st with cf := { st.cf with authRoles := some (st.cf.authRoles.getD [] ++ [(name, ⟨n, a, r⟩)]) } },
+        if (builtinRoleMap.lookup name).isSome then "ok role:shadows-builtin" else "ok role:trivial")
     | _, _, _ => (st, "bad-op role")
   | "user" :: hname :: rest =>
     match unhex hname, (kv? rest "hpw").bind unhex, (kv? rest "hname").bind unhex,
@@ -446,13 +481,26 @@ def step (st : St) (line : String) : St × String :=
       let stored : StoredHash := match kv? rest "stored" with
         | some form => if form == "wf" then .term ⟨pw, sn, hsalt⟩ else .junk form
         | Option.none => .term ⟨pw, sn, hsalt⟩
-      ({ st with cfg := { st.cfg with users := st.cfg.users ++ [(n, ⟨stored, salt, role⟩)] } },
+      ({ st with cf := { st.cf with authUsers := some (st.cf.authUsers.getD [] ++ [(n, ⟨stored, salt, role⟩)]) } },
         match stored with
         | .junk _ => "ok user:junk-hash"
         | .term h => if h == ⟨pw, n, salt⟩ then "ok user:trivial" else "ok user:foreign-hash")
     | _, _, _, _, _ => (st, "bad-op user")
   | ["unix", u, r] =>
-    ({ st with cfg := { st.cfg with unixUsers := st.cfg.unixUsers ++ [(u, r)] } }, "ok unix:trivial")
+    ({ st with cf := { st.cf with unixUsers := some (st.cf.unixUsers.getD [] ++ [(u, r)]) } }, "ok unix:trivial")
+  | ["start"] =>
+    let obs := kv? ows "start"
+    let why :=
+      if !configFileProviderStarts st.cf then "no-auth-users"
+      else if !unixProviderStarts st.cf then
+        (if st.cf.unixUsers.isNone then "default-unix-user-role-undefined" else "unix-user-role-undefined")
+      else "ok"
+    if startOk st.cf then
+      (if obs == some "ok" then (st, "ok start:ok")
+       else (st, fail "model" s!"start expected=ok observed={obs.getD "?"}"))
+    else
+      (if obs == some "refused" then (st, s!"ok start:refused/{why}")
+       else (st, fail "model" s!"start expected=refused({why}) observed={obs.getD "?"}"))
   | ["norm", a, b] =>
     match unhex a, unhex b with
     | some a, some b => ({ st with norm := (a, b) :: st.norm }, "ok norm:trivial")
